@@ -25,7 +25,8 @@ def boundaryArgs : List (String × String) :=
    ("''", "str0"), ("'a'", "str1"), ("'abc'", "str"), ("2\\'ab'", "str-off"),
    ("<<>>", "bytes0"), ("<<1>>", "bytes1"), ("<<1, 2, 3>>", "bytes"), ("2\\<<1, 2>>", "bytes-off"),
    ("[]", "arr0"), ("[1]", "arr1"), ("[1, 2, 3]", "arr"), ("[1, , 3]", "arr-hole"), ("2\\[1, 2]", "arr-off"),
-   ("['a', 'b']", "arr-str"), ("[[1], [2]]", "arr-arr"), ("[<<1>>, <<2>>]", "arr-bytes"),
+   ("[1, , , , 2]", "arr-sparse"), ("[2, , , 3]", "arr-sparse"), ("2\\[1, , , 2]", "arr-sparse-off"),
+   ("[1, , 2, , , 3]", "arr-sparse"), ("['a', 'b']", "arr-str"), ("[[1], [2]]", "arr-arr"), ("[<<1>>, <<2>>]", "arr-bytes"),
    ("{}", "set0"), ("{1}", "set1"), ("{1, 2, 3}", "set"), ("{'a': 1}", "dict1"), ("{1: 2, 3: 4}", "dict"),
    ("()", "tup0"), ("(a: 1)", "tup"), ("{|x|}", "rel0"), ("{|x| (1)}", "rel1"), ("{|x, y| (1, 2), (3, 4)}", "rel"),
    ("({|x| (1), (2)} where .x > 5)", "rel-empty"), ("([1, 2] where .@ > 5)", "arr-empty"), ("('ab' where .@ > 5)", "str-empty"),
@@ -36,15 +37,11 @@ def typicalArgs : List String := ["'abc'", "[1, 2]", "<<1, 2>>", "2", "{'a': 1}"
 def libCall (path : String) (args : List String) : String :=
   path ++ String.join (args.map (fun a => s!"({a})"))
 
-/-- counts from 2^31 upwards -/
-def hugeCounts : List String := ["2147483648", "9007199254740992", "1e300"]
-
 def libCellClass (path : String) (args : List String) : String :=
   match pinnedClass (" ".intercalate args) with
   | some c => c
   | none =>
     if path == "//grammar.parse" then "KF-grammar-parse"
-    else if path == "//seq.repeat" && hugeCounts.contains (args.headD "") then "KF-huge-repeat"
     else if path == "//fn.fix" || path == "//fn.fixt" || args.any mentionsFn then "KF-function-as-set"
     else "good"
 
@@ -131,6 +128,131 @@ def opGrid : List Case := Id.run do
     for (k, src) in others do
       out := opCase i s!"grid/misc/{k}/{tag}" src [d] :: out
       i := i + 1
+  pure out.reverse
+
+/-! ## sequence functions: sparse × dense
+
+Count() counts items, len(Values()) counts slots: every function with two or three sequence parameters gets a sparse
+array that is longer in slots but not in items than the dense one, in every position, and sparse × sparse. -/
+
+def sparseArgs : List String := ["[1, , , , 2]", "[2, , , 3]", "2\\[1, , , 2]", "[1, , 2, , , 3]", "(-2)\\[3, , , , , 4]"]
+def denseArgs : List String := ["[1, 2, 3]", "[2, 3]", "[1, 2]", "[1, 2, 3, 4, 5, 6]", "2\\[1, 2]"]
+
+def seqFns2 : List String :=
+  ["//seq.contains", "//seq.has_prefix", "//seq.has_suffix", "//seq.join", "//seq.split", "//seq.trim_prefix",
+   "//seq.trim_suffix"]
+
+def seqPairGrid : List Case := Id.run do
+  let mut out : List Case := []
+  let mut i := 0
+  let mk (i : Nat) (stratum src : String) : Case :=
+    { id := s!"C10-seq-{i}", cls := "good", kind := "survive", stratum := stratum, model := "ok", spec := "!panic",
+      payload := [src] }
+  for f in seqFns2 do
+    for sp in sparseArgs do
+      for d in denseArgs ++ sparseArgs do
+        out := mk i s!"grid/sparse/{f}/0" (libCall f [sp, d]) :: out
+        out := mk (i + 1) s!"grid/sparse/{f}/1" (libCall f [d, sp]) :: out
+        i := i + 2
+  for sp in sparseArgs do
+    for d in denseArgs do
+      for e in ["[1]", sp] do
+        out := mk i "grid/sparse///seq.sub/0" (libCall "//seq.sub" [sp, e, d]) :: out
+        out := mk (i + 1) "grid/sparse///seq.sub/1" (libCall "//seq.sub" [e, sp, d]) :: out
+        out := mk (i + 2) "grid/sparse///seq.sub/2" (libCall "//seq.sub" [d, e, sp]) :: out
+        i := i + 3
+    out := mk i "grid/sparse///seq.concat" (libCall "//seq.concat" [s!"[{sp}, [1, 2], {sp}]"]) :: out
+    out := mk (i + 1) "grid/sparse///seq.repeat" (libCall "//seq.repeat" ["2", sp]) :: out
+    i := i + 2
+  pure out.reverse
+
+/-! ## keyed sequences × boundary indices
+
+For every keyed sequence kind (string, bytes, array), offset (−2, 0, 2) and with/without a hole, every operation that
+takes an index is applied at first−2, first−1, first, the hole (or middle) position, last, last+1 (one past the end, where
+`with` appends), last+2 and a fractional position, with the payload that is stored there (or would continue the
+sequence) and with one that is not.  All indices and payloads are number literals, so none of these texts has the
+shape of KF-pinned-panics although they spell @char/@byte/@item: the class is "good" by construction. -/
+
+structure KeyedSeq where
+  tag : String
+  src : String
+  attr : String
+  first : Int
+  base : Int          -- payload stored at `first` (the payload at first + k is base + k)
+
+def keyedSeqs : List KeyedSeq :=
+  [-2, 0, 2].flatMap (fun (o : Int) =>
+    let off (body : String) : String := if o == 0 then body else s!"({o})\\{body}"
+    let at1 := toString (o + 1)
+    [ { tag := s!"str/{o}", src := off "'abc'", attr := "@char", first := o, base := 97 },
+      { tag := s!"str-hole/{o}", src := "(" ++ off "'abc'" ++ s!" without (@: {at1}, @char: 98))", attr := "@char", first := o, base := 97 },
+      { tag := s!"bytes/{o}", src := off "<<1, 2, 3>>", attr := "@byte", first := o, base := 1 },
+      { tag := s!"bytes-hole/{o}", src := "(" ++ off "<<1, 2, 3>>" ++ s!" without (@: {at1}, @byte: 2))", attr := "@byte", first := o, base := 1 },
+      { tag := s!"arr/{o}", src := off "[1, 2, 3]", attr := "@item", first := o, base := 1 },
+      { tag := s!"arr-hole/{o}", src := off "[1, , 3]", attr := "@item", first := o, base := 1 } ])
+
+def indexGrid : List Case := Id.run do
+  let mut out : List Case := []
+  let mut i := 0
+  let mk (i : Nat) (stratum src : String) : Case :=
+    { id := s!"C10-idx-{i}", cls := "good", kind := "survive", stratum := stratum, model := "ok", spec := "!panic",
+      payload := [src] }
+  for q in keyedSeqs do
+    let positions : List (String × String × Int) :=
+      [("first-2", Lit.numSrc (q.first - 2), -2), ("first-1", Lit.numSrc (q.first - 1), -1), ("first", Lit.numSrc q.first, 0),
+       ("hole", Lit.numSrc (q.first + 1), 1), ("last", Lit.numSrc (q.first + 2), 2), ("last+1", Lit.numSrc (q.first + 3), 3),
+       ("last+2", Lit.numSrc (q.first + 4), 4), ("frac", "(" ++ toString q.first ++ ".5)", 0)]
+    for (ptag, idx, k) in positions do
+      let stored := Lit.numSrc (q.base + k)
+      for (vtag, v) in [("match", stored), ("other", "120")] do
+        let pair := s!"(@: {idx}, {q.attr}: {v})"
+        for (op, src) in [("with", s!"{q.src} with {pair}"), ("without", s!"{q.src} without {pair}"),
+                          ("mem", s!"{pair} <: {q.src}"), ("with-without", s!"({q.src} with {pair}) without {pair}"),
+                          ("without-count", s!"({q.src} without {pair}) count")] do
+          out := mk i s!"grid/index/{op}/{q.tag}/{ptag}/{vtag}" src :: out
+          i := i + 1
+      for (op, src) in [("call", s!"{q.src}({idx})"), ("safecall", s!"{q.src}({idx})?:0"), ("where", s!"{q.src} where .@ = {idx}"),
+                        ("where-ne", s!"({q.src} where .@ != {idx}) count"), ("offset", s!"{idx} \\ {q.src}"),
+                        ("offset-call", s!"({idx} \\ {q.src})({idx})")] do
+        out := mk i s!"grid/index/{op}/{q.tag}/{ptag}" src :: out
+        i := i + 1
+  pure out.reverse
+
+/-! ## calls: several arguments, safe tails, mixed chains
+
+`c(a, b)` is curried: the result of `c(a)` becomes the callee of `(b)`.  The callees below return numbers, tuples,
+functions, dicts and arrays, so that every kind of intermediate result meets a further call, a dot and a `?:`.
+A function here is only ever in callee position (or the result of a call), which is its ordinary use, not the shape of
+KF-function-as-set: the class is "good" by construction. -/
+
+def callees : List (String × String) :=
+  [("(\\a 5)", "fn-num"), ("(\\a \\b a)", "fn2"), ("(\\a \\b \\c a)", "fn3"), ("(\\a (x: 1, y: (z: 2)))", "fn-tup"),
+   ("(\\a [1, 2])", "fn-arr"), ("(\\a {'a': 7})", "fn-dict"), ("(\\a ())", "fn-tup0"), ("(\\a {})", "fn-set0"),
+   ("{'a': 7}", "dict-num"), ("{'a': {'c': 1}, 1: {'a': {'c': 2}}}", "dict-dict"), ("{'a': (x: 1, y: \\b 2)}", "dict-tup"),
+   ("[[1, 2], [3]]", "arr-arr"), ("['ab', 'c']", "arr-str"), ("(x: \\a 5, y: (x: \\a \\b 1))", "tup-fn"),
+   ("(x: {'a': (y: 1)}, y: [1])", "tup-dict"), ("//seq.contains", "native2"), ("//str.upper", "native1"), ("5", "num"),
+   ("()", "tup0"), ("{}", "set0"), ("'abc'", "str")]
+
+def callArgs : List (String × String × String) := [("1", "'a'", "0"), ("'a'", "'c'", "1"), ("0", "0", "{}")]
+
+def callGrid : List Case := Id.run do
+  let mut out : List Case := []
+  let mut i := 0
+  for (c, tag) in callees do
+    for (a, b, d) in callArgs do
+      let forms : List (String × String) :=
+        [("c(a,b)", s!"c({a}, {b})"), ("c(a,b)?:", s!"c({a}, {b})?:0"), ("c(a,b,c)", s!"c({a}, {b}, {d})"),
+         ("c(a,b,c)?:", s!"c({a}, {b}, {d})?:0"), ("c(a)(b)", s!"c({a})({b})"), ("c(a)(b)?:", s!"c({a})({b})?:{d}"),
+         ("c(a)?(b):", s!"c({a})?({b}):{d}"), ("c(a)?(b)?:", s!"c({a})?({b})?:{d}"), ("c(a)?(b,c):", s!"c({a})?({b}, {d}):0"),
+         ("c.x(a)?:", s!"c.x({a})?:{d}"), ("c.x?(a):", s!"c.x?({a}):{d}"), ("c.x?(a,b):", s!"c.x?({a}, {b}):{d}"),
+         ("c(a).y?:", s!"c({a}).y?:{d}"), ("c(a)?.y:", s!"c({a})?.y:{d}"), ("c(a)?.y.z:", s!"c({a})?.y.z:{d}"),
+         ("c(a)?.y?(b):", s!"c({a})?.y?({b}):{d}"), ("c.y?.x?(a,b):", s!"c.y?.x?({a}, {b}):{d}"),
+         ("c(a,b).x?:", s!"c({a}, {b}).x?:{d}"), ("c(a)(b)(c)", s!"c({a})({b})({d})"), ("c(a, b)(c)?:", s!"c({a}, {b})({d})?:0")]
+      for (ftag, body) in forms do
+        out := { id := s!"C10-call-{i}", cls := "good", kind := "survive", stratum := s!"grid/call/{ftag}/{tag}",
+                 model := "ok", spec := "!panic", payload := [s!"let c = {c}; {body}"] } :: out
+        i := i + 1
   pure out.reverse
 
 end Arrai.C10
